@@ -22,11 +22,26 @@ CHECKS = {
   category='proof', ref='DESIGN.md section 4 (C03)',
   text="For all 256-bit operand values: every constant folding and every local rewrite rule of the front end returns the EVM value of the opcode (wrap-around, division by zero, signed ops, shifts >= 256), never raises, never returns a non-word; size gates of check_size / NOT against an independent byte table. Proved per function and per opcode, unbounded in the operand values.",
   note=TRUST + "Bit-vector lemmas transferred to Int by definition of band/bor/bxor. Opcode->operator table obtained by running the real translation (finite domain). Context rules (apply_cond_transformation) and the fixpoint drivers are not under contract yet."),
+ 'C04': dict(
+  technique="bounded stand-in (no deductive contract on the SMSgreedy emitters yet): the real greedy_from_json on ~700 (thorough: ~4 500) specifications produced by the real front end, each successful result executed by an independent abstract stack machine",
+  category='other', ref='DESIGN.md section 4 (C04)',
+  text="Bounded: whenever the greedy search reports error = 0 on a specification of the corpora (hand-written, memory/storage, rule shapes, random blocks with deep stacks and many stores; 3 splitting policies in thorough), the returned ids never underflow, use only DUP/SWAP depths 1..16, give every instruction exactly the operands the specification names, execute every store once, respect every ordering constraint and end in the specified stack; the specification passed in is not altered.",
+  note="Tier B only. Trusted: specs/stackexec.py (abstract stack machine). The heuristic emitters are not under contract; their failures are contained (C10)."),
  'C05': dict(
   technique="recursion-on-contract proof of compare_variables (one frame with arbitrary symbolic arguments, recursive calls replaced by the function's own contract, uninterpreted denotation functions; z3), gate contract on compare_asm_block_asm_format, plus the whole checker run on semantic mutants judged by a reference executor (bounded)",
   category='other', ref='DESIGN.md section 4 (C05)',
   text="compare_variables returns True only for variables with equal denotation in both specifications, for every opcode arity and well-formed instruction pair (proved), is reflexive and never raises; the block comparison answers equal only if the specification checker does and the prefix/suffix items coincide, and never raises. Bounded: ~380 distinguishable mutants of 48 corpus blocks are all rejected; every block equals itself.",
   note=TRUST + "compare_dependences and the injectivity of the store matching are covered by the bounded tier only; forves adapter not covered (external binary absent)."),
+ 'C06': dict(
+  technique="step lemmas on the real constraint generators: each generator is run on concrete structural parameters (stack bound, depth, arity), its formula object is turned into a z3 formula and 'wf_j and constraint and t_j = theta implies step defined, wf_j+1 and stack_j+1 = step(stack_j)' is decided for ALL assignments; plus bounded model enumeration of full encodings decoded by the tool's own reader, an independent SMT-LIB parser on the emitted text, and the model reader on adversarial model texts",
+  category='other', ref='DESIGN.md section 4 (C06)',
+  text="For all 18 stack-constraint generators (both stack representations), every stack bound 2..7 (thorough 2..18), every DUP/SWAP depth and arities 0..3: any assignment satisfying the generated constraint performs exactly the stack step of the instruction, without underflow/overflow, and keeps the stack representation well formed. Bounded: all enumerated models (8 000+) of 150+ full encodings under 8-12 option sets decode to realizing sequences; the emitted SMT-LIB is accepted by z3's parser with every symbol declared once; get_value returns each variable's own definition for prefix-related names in any order.",
+  note="Parameter-bounded (structure) but unbounded in assignments; composition over positions is an induction meta-step. Trusted: specs/formula.py translation, z3. Pre-order constraint generators are covered by the model enumeration only."),
+ 'C07': dict(
+  technique="objective-accounting obligations on the real soft-constraint generators decided for all assignments (penalty minus sum of weights is constant), instruction cost attributes against independent tables, plus bounded model-level stand-ins: soft minus cost constant over enumerated models, optimum equal under all pruning/bounds option sets and equal to a brute-force optimum",
+  category='other', ref='DESIGN.md section 4 (C07)',
+  text="Decided for every assignment within enumerated (weights, position-window) families: both soft-constraint generators price a sequence by the sum of its instruction weights up to a constant; the weights are the instruction costs of the chosen criterion (independent tables). Bounded: on small specifications soft(M) - cost(decode(M)) is constant over all enumerated models, the hard constraints are satisfiable, and the optimum has the same true cost under 5-9 option sets and equals the brute-force optimum over all realizing sequences within the bound.",
+  note="The universal optimum-preservation claim (bounds and pruning never remove all optimal programs, for every specification) is NOT decided: it quantifies over all realizing sequences; only bounded instances are checked. Costs of dynamic-gas opcodes are taken from the tool's own figure."),
  'C08': dict(
   technique="contract-based deductive verification: postconditions on improves_criterion, block_has_been_optimized, compare_best_block, update_*_count and on the item/block cost functions against independent cost tables; VCs from the real AST, z3",
   category='proof', ref='DESIGN.md section 4 (C08)',
